@@ -50,6 +50,7 @@ DefaultBitVectorState createRandomDefaultBitVectorState(std::size_t bitWidth, st
 	for (size_t i = 0; i < DefaultConfig::NUM_PLANES; i++)
 		for (size_t j = 0; j < state.getNumBlocks(); j++)
 			state.data((DefaultConfig::Plane) i)[j] = random(rng);
+	state.resize(bitWidth); // clear the bits beyond bitWidth in the last word again, a later resize() would expose them
 	return state;
 }
 
@@ -65,6 +66,7 @@ DefaultBitVectorState createDefinedRandomDefaultBitVectorState(std::size_t bitWi
 		state.data(DefaultConfig::VALUE)[j] = random(rng);
 		state.data(DefaultConfig::DEFINED)[j] = ~0ull; //64bit mask
 	}
+	state.resize(bitWidth); // clear the bits beyond bitWidth in the last word again, a later resize() would expose them
 	return state;
 }
 
